@@ -48,6 +48,14 @@ PROBES = [
     ("'a-b-c'.split('-').reverse().join('+') + 'xyz'.replace(/y/,'Y')", "c+b+axYz"),
     ("parseInt('42px') + parseFloat('1.5') + Number('2')", 45.5),
     ("[1,2,3].join(';') + '|' + [1,2,3].indexOf(2)", "1;2;3|1"),
+    # what the front end accepts is part of a fresh context's behaviour too: words that are special
+    # only in some positions, used as plain names (expected = whatever the first answer was)
+    ("var of = 1; of", None),
+    ("var get = 1, set = 2; get + set", 3),
+    ("var from = 3, as = 4, async = 5; from + as + async", 12),
+    ("function of(of){ return of } of(5)", None),
+    ("var o8 = {of: 1, get: 2, set: 3, in: 4, get g(){ return 5 }}; o8.of + o8.get + o8.in + o8.g", 12),
+    ("var t8 = 0; for (var of8 of [1, 2]) { t8 += of8 } for (var in8 in {a: 1}) { t8 += in8 } t8", "3a"),
 ]
 
 LOOP_TERMINALS = ("loop_while", "loop_cb", "loop_regex", "loop_eval", "loop_getter", "loop_in_try", "loop_in_try_finally",
@@ -79,10 +87,27 @@ TERMINAL_SRC = {
     "rec_cb": "function rc(){ [1].forEach(rc); } rc();",
     "host_raise": "boom();",
     "sink_fail": "console.log('to a broken sink');",
-    "syntax": "var = ;",
+    "syntax": None,        # SYNTAX_SRCS[op["syn"]]
     "compile_error_nested": "function zq9(g0, g1) { var g2 = 1; function g3() { return 1; } function zin9() { break; } return g2; }",
     "compile_error_label": "function zq8(g1, g3) { var g0; var zf8 = function () { function zd8() { continue nolabel; } }; }",
 }
+
+
+# programs that fail to parse, cut at different places of the grammar (the parser must leave nothing
+# behind -- in the context or in the process -- wherever it gives up)
+SYNTAX_SRCS = (
+    "var = ;", "for (var i = 0; i < ; i++) {}", "for (x of) {}", "for (var k in ) {}", "for (;;", "function (",
+    "({get x( })", "[1, 2", "switch (1) { case", "a ? b", "'unterminated", "x = {a: }", "try {", "do { } while (",
+    "(function(){ return", "if (1", "new (", "a.b.", "var o = {get", "x => {", "1 + ;", "({a:1,,})", "while (",
+    "(a, b) => ;", "function f(a, ) { ", "for (var q = function(){ for (var z of [1]) {} ; in 3) {}",
+    "label: for (;;) { switch (1) { case 1: (function(){ try { ", "var r = /a/g; r.test('a' ",
+)
+
+
+def terminal_src(op):
+    if op["terminal"] == "syntax":
+        return SYNTAX_SRCS[op.get("syn", 0) % len(SYNTAX_SRCS)]
+    return TERMINAL_SRC[op["terminal"]]
 
 
 # ------------------------------------------------------------------ generation
@@ -190,7 +215,7 @@ def op_src(op, with_terminal=True, upto=None):
         if with_terminal and op.get("reenter_at") == idx:
             parts.append("re();")
     if with_terminal and op["terminal"] not in NESTED_TERMINALS:
-        parts.append(TERMINAL_SRC[op["terminal"]])
+        parts.append(terminal_src(op))
     parts.append("'ok';")
     return "\n".join(parts)
 
@@ -253,6 +278,8 @@ def gen_op(rng, ctxs, vals, allow_reenter):
         vals[0] += 1
         effects.append({"e": "implicit", "name": rng.choice(NAMES), "v": v})
     op = {"op": "eval", "ctx": c, "effects": effects, "terminal": term, "busy": []}
+    if term == "syntax":
+        op["syn"] = rng.randrange(len(SYNTAX_SRCS))
     if term in LOOP_TERMINALS and rng.random() < 0.5:
         # spread busy work between the effects so that the deadline lands between or inside them
         tot = cfg["T_work"] / 45.0
@@ -278,11 +305,41 @@ class _FailingSink(io.TextIOBase):
         raise OSError(28, "No space left on device (injected)")
 
 
+_BASELINE = {}     # probe index -> what a pristine context answered the first time this process asked
+
+
+def _outcome(out):
+    return (out["kind"], out.get("value") if out["kind"] == "value" else out.get("cls"))
+
+
+def baseline(Context):
+    """Answers of a pristine context to every probe, taken once per process before any history has
+    run in it.  Later pristine contexts must keep giving them: state that a failed evaluation leaves
+    in the process (not in a context) changes all contexts alike, so only a comparison with the
+    past can see it.  Uses no budget of the case (the counter is paused)."""
+    if not _BASELINE:
+        S = W.S
+        saved = (S.counting, S.cap, S.next_at)
+        S.counting = False
+        try:
+            for i, (src, _) in enumerate(PROBES):
+                try:
+                    v = ("value", W.canon(Context().eval(src)))
+                except BaseException as e:      # noqa
+                    k = W.classify_exception(e)
+                    v = (k[0], k[1])
+                _BASELINE[i] = v
+        finally:
+            S.counting = saved[0]
+    return _BASELINE
+
+
 class Sim:
     def __init__(self, case):
         from microjs import Context
         self.case = case
         self.Context = Context
+        baseline(Context)
         S = W.S
         self.ctxs = []
         self.twins = []
@@ -444,6 +501,9 @@ class Sim:
                 b2 = (pr["kind"], pr.get("value") if pr["kind"] == "value" else pr.get("cls"))
                 if a != b2:
                     self.bad("C12.isolate", "probe %r gives %r on context %d and its twin, a pristine context gives %r" % (src[:40], a, c, b2), step)
+                elif tuple(_BASELINE.get(op["probe"], b2)) != tuple(b2):
+                    self.bad("C12.isolate", "probe %r gives %r on a pristine context now, and gave %r before the earlier evaluations of this process ran" % (
+                        src[:40], b2, tuple(_BASELINE[op["probe"]])), step)
             return
         # ---- eval with effects and a terminal
         src = op_src(op)
@@ -626,6 +686,10 @@ def shrink_candidates(case):
         if any(op.get("busy", [])):
             c = cl()
             c["ops"][i]["busy"] = []
+            yield c
+        if op.get("syn"):
+            c = cl()
+            c["ops"][i]["syn"] = 0
             yield c
         if op["terminal"] != "none":
             c = cl()
